@@ -4,6 +4,7 @@ use ohmc_core::explore::*;
 use ohmc_core::uni::*;
 
 fn main() {
+    ohmc::props::deep::maybe_child::<B>("C17");
     let mut ctx = Ctx::from_args("C17");
     let quick = ctx.quick();
     let specs: Vec<Spec> = if quick { vec![Spec::open(3, 2, 2, 1, 1, 2, 2)] } else { vec![Spec::open(3, 2, 2, 1, 1, 2, 2), Spec { n_min: 4, ..Spec::open(4, 2, 2, 1, 1, 2, 2) }, Spec { e_min: 3, ..Spec::open(3, 3, 2, 1, 1, 1, 1) }, Spec { e_min: 1, ..Spec::open(2, 2, 3, 1, 1, 2, 2) }] };
@@ -30,6 +31,11 @@ fn main() {
     let mut big = ohmc::props::structured::shapes_at(&sizes, false);
     big.extend(ohmc::props::structured::programs_at(&sizes, false));
     ctx.run_slice(Slice::new(format!("structured-large[sizes {:?}: {} diagrams]", sizes, big.len()), big.len() as u64, |i, loc| check::<B>(&big[i as usize].1, loc)));
+    // deep diagrams (a dependency chain of tens of thousands of operations), each in a child process on a 2 MiB stack:
+    // the call has to come back, and with the answer known in closed form
+    let deep_sizes: Vec<usize> = if ctx.quick() { vec![30_000] } else { vec![30_000, 100_000] };
+    let deep_cases: Vec<(&str, usize)> = ohmc::props::deep::FAMILIES.iter().flat_map(|f| deep_sizes.iter().map(move |&k| (*f, k))).collect();
+    ctx.run_slice(Slice::new(format!("deep-chains[{:?} operations: chain, chain listed backwards, chain into a 2-cycle, star; one child process each]", deep_sizes), deep_cases.len() as u64, |i, loc| ohmc::props::deep::check_in_child(deep_cases[i as usize].0, deep_cases[i as usize].1, loc)).heavy());
     let meta = Meta {
         rule: "every open hypergraph of the listed universes (isolated nodes, dangling nodes, repeated incidences, parallel connections of multiplicity up to 4-6) and every node index: is_acyclic (on the hypergraph and on the open hypergraph), is_monogamous, in_degree, out_degree against definitions by closure and counting; any panic is a violation; run under the checked (overflow checks, debug assertions) and the release-like profile; non-trivial = has an isolated node, a degree >= 3, a cycle, or is monogamous; plus structured families of larger diagrams, enumerated completely for every size parameter up to the stated bound and in five numberings (fan-out/fan-in, k parallel operations, chains, stars, cycles with tails, diamonds, multiplicity k, operations whose predecessors sit at depths j and k of a chain, one node read k times)".into(),
         bounds: "quick: <=3 nodes, <=2 hyperedges of arity <=2, interfaces <=2; thorough adds 4 nodes, 3 hyperedges, arity 3".into(),
